@@ -45,7 +45,9 @@ Causes == {"none", "badsig", "expired", "missing", "unauth", "badlinksig", "thr"
            "rule", "rule_match_insp", "subfail", "subok", "subok_rule",
            "surplus_subexpired", "surplus_subinspfail", "surplus_submissing",
            \* the failing step is not the last one: a second step, after it, passes all its checks
-           "rule_first_of_two"}
+           "rule_first_of_two",
+           \* two steps, the SECOND one's link is missing (its functionary is the first step's, or another one)
+           "missing_second_same", "missing_second_other"}
 
 Sub(exp) ==
   LayoutD(<<GoodSig("k1")>>, exp, <<"k3">>,
@@ -67,8 +69,10 @@ Layout(cause, insps) ==
                   CASE cause \in {"rule", "subok_rule", "rule_first_of_two"} -> <<Simple("DISALLOW", <<"*">>)>>
                     [] cause = "rule_match_insp" -> <<MatchR(<<"*">>, "P", "i1"), MatchR(PA, "M", "i1"), Simple("DISALLOW", <<"*">>)>>
                     [] OTHER -> <<Simple("ALLOW", <<"*">>)>>)>>
-          \o (IF cause = "rule_first_of_two"
-              THEN <<StepD("s2", <<"k3">>, 1, << >>, <<Simple("ALLOW", <<"*">>)>>)>> ELSE << >>),
+          \o (IF cause \in {"rule_first_of_two", "missing_second_other"}
+              THEN <<StepD("s2", <<"k3">>, 1, << >>, <<Simple("ALLOW", <<"*">>)>>)>>
+              ELSE IF cause = "missing_second_same"
+              THEN <<StepD("s2", <<"k1">>, 1, << >>, <<Simple("ALLOW", <<"*">>)>>)>> ELSE << >>),
           insps)
 
 Files(cause) ==
